@@ -5,6 +5,8 @@ deterministic loop (own-address types, who advertises, which address is asked fo
 disconnects are symbolic; payload bytes symbolic).  Device level: three real Devices for the "caller is
 handed that connection and no other" clause.  Scanning: advertising and scan-response payloads.
 """
+import asyncio
+
 from vf.e1 import harness, untraced, concrete as C
 from vf import flags as _flags
 from vf import detloop, detenv
@@ -308,6 +310,83 @@ def device_connect_returns_requested_peer(both: int, which: int, incoming: int) 
             tk, ok = (1 if which == 0 else 2), (2 if which == 0 else 1)
             return got[tk] == [b'\x07\x08'] and got[ok] == []
 
+
+
+
+class _SlowClassicLink(lnk.LocalLink):
+    """LocalLink whose BR/EDR (LMP) traffic has a constant, order-preserving latency"""
+    latency = 0.0
+
+    def send_lmp_packet(self, sender_controller, receiver_address, packet):
+        if not self.latency:
+            return super().send_lmp_packet(sender_controller, receiver_address, packet)
+        receiver = self.find_classic_controller(receiver_address)
+        if receiver is None:
+            return super().send_lmp_packet(sender_controller, receiver_address, packet)
+        asyncio.get_running_loop().call_later(self.latency, lambda: receiver.on_lmp_packet(sender_controller.public_address, packet))
+
+
+def _run_until(loop, t):
+    for _ in range(4000):
+        loop.run_ready()
+        if loop.timers and loop.timers[0][0] <= t:
+            loop.advance()
+        elif not loop.ready:
+            break
+    loop.now = max(loop.now, t)
+
+
+@harness(pre=['0 <= slow <= 1 and 0 <= b_public <= 1 and 0 <= le_first <= 1'], family='devices', kernels=K + ('bumble.device.Device.connect', 'bumble.device.Device.connect_classic', 'bumble.device.Device.on_connection'), timeout=(240, 600),
+         bounds='two dual-mode Devices: A advertises and pages B over BR/EDR while B connects to A over LE, B using its public or its random address as LE own address, LMP traffic instant or with a constant latency (so the LE connection completes while the page is pending), either order of the two requests: each connect() returns the connection of the transport, role and peer it asked for, and each device ends with exactly one connection per transport')
+def device_dual_mode_connect(slow: int, b_public: int, le_first: int) -> bool:
+    slow, b_public, le_first = C(slow, 0, 1), C(b_public, 0, 1), C(le_first, 0, 1)
+    with untraced():
+        from bumble.core import PhysicalTransport
+        detenv.reset()
+        with detloop.running() as loop:
+            link = _SlowClassicLink()
+            link.latency = 0.2 if slow else 0.0
+            addrs = ['F0:F0:F0:F0:F0:F0', 'F1:F1:F1:F1:F1:F1']
+            ctls = [ctl.Controller(f'C{i}', link=link, public_address=addrs[i]) for i in range(2)]
+            devs = [bdev.Device(f'D{i}', address=hci.Address(addrs[i]), host=bhost.Host(ctls[i], ctls[i])) for i in range(2)]
+            for d in devs:
+                d.classic_enabled = True
+                loop.create_task(d.power_on())
+            _dsettle(loop)
+            a, b = devs
+            seen = []
+            a.on(a.EVENT_CONNECTION, seen.append)
+            loop.create_task(a.start_advertising(auto_restart=False))
+            _run_until(loop, loop.now + 0.01)
+
+            def classic():
+                return loop.create_task(a.connect(b.public_address, transport=PhysicalTransport.BR_EDR, timeout=5.0))
+
+            def le():
+                return loop.create_task(b.connect(a.random_address, transport=PhysicalTransport.LE,
+                                                  own_address_type=hci.OwnAddressType.PUBLIC if b_public else hci.OwnAddressType.RANDOM))
+            if le_first:
+                t_le = le()
+                _run_until(loop, loop.now + 0.02)
+                t_cl = classic()
+            else:
+                t_cl = classic()
+                _run_until(loop, loop.now + 0.02)
+                t_le = le()
+            _run_until(loop, loop.now + 3.0)
+            if not (t_cl.done() and t_le.done()) or t_cl.exception() or t_le.exception():
+                return False
+            c_cl, c_le = t_cl.result(), t_le.result()
+            if c_cl.transport != PhysicalTransport.BR_EDR or c_cl.role != hci.Role.CENTRAL or c_cl.peer_address != b.public_address:
+                return False
+            if c_le.transport != PhysicalTransport.LE or c_le.role != hci.Role.CENTRAL or c_le.peer_address != a.random_address:
+                return False
+            for d in devs:
+                kinds = sorted(c.transport for c in d.connections.values())
+                if kinds != sorted([PhysicalTransport.LE, PhysicalTransport.BR_EDR]):
+                    return False
+            on_a = [c for c in seen if c.transport == PhysicalTransport.BR_EDR]
+            return len(on_a) == 1 and on_a[0] is c_cl
 
 
 @harness(pre=['0 <= closer <= 1 and 0 <= bystander_adv <= 1'], family='devices', kernels=K + ('bumble.device.Device.create_advertising_set', 'bumble.controller.AdvertisingSet.send_extended_advertising_data'), timeout=(240, 600),
